@@ -627,7 +627,8 @@ def run(cfg):
         'bytecode-level switches inside a line are not modelled',
         'EOF leaves the writer open (half-close), a reset closes it and makes drain() raise',
         'server side: the loops are driven alternately to quiescence (one schedule); thread interleavings of the io and '
-        'klong loops of a real server are not explored there',
+        'klong loops of a real server are not explored there; a loop whose ready queue has drained sleeps until a transport '
+        'event or the self-pipe write of call_soon_threadsafe wakes it (a plain call_soon from the other loop wakes nobody)',
     ]
     return rep
 
